@@ -379,3 +379,10 @@ where
 {
     replica.info.subscribe(sender)
 }
+
+/// The entries (with the sender's content status) carried by a reconciliation message, in the
+/// order in which the receiver applies them.
+pub fn message_values(message: &ProtocolMessage) -> Vec<(SignedEntry, ContentStatus)> {
+    // item parts are processed before fingerprint parts, each in message order
+    message.values().cloned().collect()
+}
